@@ -71,16 +71,15 @@ def parser_errors(text):
 
 
 def conc(*xs):
-    """realise symbolic ints WHILE TRACING (an equality test per candidate value), so that every choice is a decision in
-    CrossHair's path tree and the space is exhausted exactly once"""
+    """realise symbolic ints WHILE TRACING, by binary search (8 decisions per value instead of up to 200 equality tests), so
+    that every choice is a decision in CrossHair's path tree and the space is exhausted exactly once"""
     out = []
     for x in xs:
-        for k in range(200):
-            if x == k:
-                out.append(k)
-                break
-        else:
-            raise AssertionError("out of range")
+        v = 0
+        for b in (128, 64, 32, 16, 8, 4, 2, 1):
+            if x >= v + b:
+                v += b
+        out.append(v)
     return out
 
 
